@@ -747,7 +747,7 @@ pub const C05: BuilderProp = BuilderProp {
     id: "C05",
     profile: profile_c05,
     eval: eval_c05,
-    runs_quick: 60_000,
+    runs_quick: 100_000,
     runs_thorough: 3_000_000,
     text: "one run = one seeded wallet session (explicit inputs of every kind, outputs, certificates, withdrawals, mint/burn, proposals, donation, fee requests, one of the balancing entry points x 4 strategies, build) under one RNG schedule and knob set — non-trivial = a transaction/body was produced after a successful balancing and the preservation-of-value equation was evaluated per asset in big integers from the emitted bytes and ground-truth UTxO values; distinct = distinct state signature (body keys x witness keys x cert tags x input/output head classes x fee width x aux x witness counts x change-path probes x balancing entry)",
     extra_assumptions: &[],
@@ -756,7 +756,7 @@ pub const C06: BuilderProp = BuilderProp {
     id: "C06",
     profile: profile_c06,
     eval: eval_c06,
-    runs_quick: 60_000,
+    runs_quick: 100_000,
     runs_thorough: 3_000_000,
     text: "one run = one seeded wallet session biased to CBOR width boundaries, all witness kinds, overlapping signers, Plutus with ex-unit prices, reference scripts — non-trivial = a built transaction was signed with exactly the distinct required keys (+1 bootstrap witness per Byron address) and its fee compared with the node's minimum fee of the signed bytes (linear + ex-units + tier-by-tier reference-script fee), plus the fee-request clauses; distinct = distinct state signature as for C05",
     extra_assumptions: &["reference scripts are charged by the smallest defensible size (Plutus: script bytes; native: its CBOR), so a library over-estimate can never be reported"],
@@ -765,7 +765,7 @@ pub const C07: BuilderProp = BuilderProp {
     id: "C07",
     profile: profile_c07,
     eval: eval_c07,
-    runs_quick: 60_000,
+    runs_quick: 100_000,
     runs_thorough: 3_000_000,
     text: "one run = one seeded wallet session with K9-randomised coins_per_byte / max_value_size / max_tx_size and boundary outputs — non-trivial = a built transaction whose every output (requested, change incl. topped-up last change, minted-asset outputs, helper-made collateral return) was checked for coin >= cpb x (160 + size) and value size <= max, the signed size against max_tx_size, and min_ada_for_output on each observed output against both bounds; distinct = distinct state signature as for C05",
     extra_assumptions: &["the function clause of C07 is evaluated on the outputs sessions produce, not on arbitrary outputs (pure-function part is not claimed)"],
